@@ -172,6 +172,9 @@ def run(ctx):
         ok = bool(writes)
         forms = []
         for i, st in writes:
+            if st["rv"]["k"] == "use" and any(a.kind == "bin" and a.what.startswith("Rem") for a in b.origins(st["rv"]["o"], deep=True)):
+                forms.append("modular")
+                continue
             ats = b.origins(st["rv"]["o"]) if st["rv"]["k"] == "use" else []
             for a in ats:
                 if a.kind == "param" and a.proj[-1:] == (".partition_range_start_inclusive",):
